@@ -283,8 +283,9 @@ func refTreeSize(leaves int) int {
 
 func init() {
 	fw.Register(&fw.Prop{
-		ID:    "C19",
-		Level: "exploration",
+		ID:           "C19",
+		EvalCounters: []string{"paths_verified", "other_leaf_rejections"},
+		Level:        "exploration",
 		Rule: "one case per leaf count n=1..N (N=1024 quick, 4096 thorough) with distinct 64-hex leaf hashes derived from (seed,n,i); every leaf index i is exercised: " +
 			"path by index and by leaf lookup must verify against GetRoot() (library verifier and an independent one), root must equal an independent pairwise/duplicate-last reference, " +
 			"the same path must not verify for other leaves (all others for n<=64; neighbours, sibling, last leaves, 3 random and a one-nibble mutation above), export/import must reproduce root and paths; a different tree (rotated leaves plus one new leaf) is then loaded with SetTree / re-computed with ComputeTree into the objects that already served lookups and its by-leaf and by-index paths must prove the new leaves only; a tree loaded from GetTree() without copying must be unaffected by the exporter computing other trees, and by SetTree calls on itself that are rejected for a wrong size. " +
